@@ -82,3 +82,57 @@ ORACLES = {
     "hmac_sha256": hmac_sha256, "hmac_sha512": hmac_sha512,
     "pbkdf2_sha512": pbkdf2_sha512, "crc32": crc32, "nfkd": nfkd, "nfc": nfc,
 }
+
+
+# ---- elliptic curves: points travel as [] (identity) or [x, y]; curve ids 0 secp256k1, 1 nist256p1, 2 ed25519
+import ecref as _ec
+
+_CURVES = {0: _ec.SECP256K1, 1: _ec.NIST256P1, 2: _ec.ED25519}
+
+
+def _pt_in(c, P):
+    if c == 2:
+        return (P[0], P[1]) if P else _ec.ED25519.ZERO
+    return (P[0], P[1]) if P else None
+
+
+def _pt_out(c, P):
+    if c == 2:
+        return [P[0], P[1]]
+    return [] if P is None else [P[0], P[1]]
+
+
+def ec_base(c):
+    return _pt_out(c, _CURVES[c].G)
+
+
+def ec_add(c, P, Q):
+    return _pt_out(c, _CURVES[c].add(_pt_in(c, P), _pt_in(c, Q)))
+
+
+def ec_mul(c, k, P):
+    return _pt_out(c, _CURVES[c].mul(k, _pt_in(c, P)))
+
+
+def ec_lift_x(c, x, odd):
+    """Weierstrass: point with abscissa x and parity odd; ed25519: x is y, odd is the sign bit."""
+    if c == 2:
+        xx = _ec.ED25519.recover_x(x, 1 if odd else 0)
+        return [] if xx is None else [xx, x]
+    P = _CURVES[c].lift_x(x, bool(odd))
+    return [] if P is None else [P[0], P[1]]
+
+
+def ec_order(c):
+    return _CURVES[c].n
+
+
+ORACLES.update({"ec_base": ec_base, "ec_add": ec_add, "ec_mul": ec_mul, "ec_lift_x": ec_lift_x,
+                "ec_order": ec_order})
+
+# oracles contributed by property groups: harness/oracles_<group>.py exposing ORACLES
+import glob as _glob
+import importlib as _importlib
+import os as _os
+for _p in sorted(_glob.glob(_os.path.join(_os.path.dirname(_os.path.abspath(__file__)), "oracles_*.py"))):
+    ORACLES.update(_importlib.import_module(_os.path.basename(_p)[:-3]).ORACLES)
